@@ -482,10 +482,10 @@ Definition or_ := chain and_ op_or.
 Definition sel_item (ts : list token) : res sel_expr :=
   match ts with
   | TK P_star :: r => Ok (SStar, r)
-  | TId t :: TK P_dot :: TK P_star :: r => Ok (SQualStar t, r)
   | _ =>
       do (e, r) <- p_expr P ts;
       match r with
+      | TK P_dot :: TK P_star :: r' => match e with ECol [] t => Ok (SQualStar t, r') | _ => Err E_syntax end   (* t.* *)
       | TK P_explode :: r' => if is_ve e then Ok (SExplode e, r') else Err E_syntax
       | TK K_as :: TId a :: r' => Ok (SExpr e a, r')
       | TId a :: r' => Ok (SExpr e a, r')
@@ -510,41 +510,56 @@ Definition order_ (ts : list token) : res order :=
   | _ => Ok (Order e false, r)
   end.
 
+Definition from_opt (ts : list token) : res (list table_expr) :=
+  match ts with
+  | TK K_from :: r' => sep_list (p_tref P) (List.length r') r'
+  | _ => Ok ([TName [] dual []], ts)          (* from_opt: the grammar supplies the table "dual" *)
+  end.
+Definition where_opt (ts : list token) : res (option expr) :=
+  match ts with
+  | TK K_where :: r' => do (e, r'') <- p_expr P r'; Ok (Some e, r'')
+  | _ => Ok (None, ts)
+  end.
+Definition groupby_opt (ts : list token) : res (list expr) :=
+  match ts with
+  | TK K_group :: TK K_by :: r' => sep_list (p_expr P) (List.length r') r'
+  | _ => Ok ([], ts)
+  end.
+Definition triggers_opt (ts : list token) : res (list trigger) :=
+  match ts with
+  | TK K_trigger :: r' => sep_list trigger_ (List.length r') r'
+  | _ => Ok ([], ts)
+  end.
+Definition orderby_opt (ts : list token) : res (list order) :=
+  match ts with
+  | TK K_order :: TK K_by :: r' => sep_list order_ (List.length r') r'
+  | _ => Ok ([], ts)
+  end.
+Definition limit_opt (ts : list token) : res (option limit) :=
+  match ts with
+  | TK K_limit :: r' =>
+      do (e1, r'') <- p_expr P r';
+      match r'' with
+      | TK P_comma :: r3 => do (e2, r4) <- p_expr P r3; Ok (Some (Limit (Some e1) e2), r4)      (* LIMIT offset, rowcount *)
+      | TK K_offset :: r3 => do (e2, r4) <- p_expr P r3; Ok (Some (Limit (Some e2) e1), r4)     (* LIMIT rowcount OFFSET offset *)
+      | _ => Ok (Some (Limit None e1), r'')
+      end
+  | _ => Ok (None, ts)
+  end.
+Definition distinct_opt (ts : list token) : bool * list token :=
+  match ts with TK K_distinct :: r' => (true, r') | _ => (false, ts) end.
+
 Definition select_ (ts : list token) : res select :=
   match ts with
   | TK K_select :: r0 =>
-      let '(d, r) := match r0 with TK K_distinct :: r' => (true, r') | _ => (false, r0) end in
+      let '(d, r) := distinct_opt r0 in
       do (items, r1) <- sep_list sel_item (List.length r) r;
-      do (from, r2) <- match r1 with
-                       | TK K_from :: r' => sep_list (p_tref P) (List.length r') r'
-                       | _ => Ok ([TName [] dual []], r1)
-                       end;
-      do (w, r3) <- match r2 with
-                    | TK K_where :: r' => do (e, r'') <- p_expr P r'; Ok (Some e, r'')
-                    | _ => Ok (None, r2)
-                    end;
-      do (gb, r4) <- match r3 with
-                     | TK K_group :: TK K_by :: r' => sep_list (p_expr P) (List.length r') r'
-                     | _ => Ok ([], r3)
-                     end;
-      do (trs, r5) <- match r4 with
-                      | TK K_trigger :: r' => sep_list trigger_ (List.length r') r'
-                      | _ => Ok ([], r4)
-                      end;
-      do (ob, r6) <- match r5 with
-                     | TK K_order :: TK K_by :: r' => sep_list order_ (List.length r') r'
-                     | _ => Ok ([], r5)
-                     end;
-      do (lim, r7) <- match r6 with
-                      | TK K_limit :: r' =>
-                          do (e1, r'') <- p_expr P r';
-                          match r'' with
-                          | TK P_comma :: r3' => do (e2, r4') <- p_expr P r3'; Ok (Some (Limit (Some e1) e2), r4')
-                          | TK K_offset :: r3' => do (e2, r4') <- p_expr P r3'; Ok (Some (Limit (Some e2) e1), r4')
-                          | _ => Ok (Some (Limit None e1), r'')
-                          end
-                      | _ => Ok (None, r6)
-                      end;
+      do (from, r2) <- from_opt r1;
+      do (w, r3) <- where_opt r2;
+      do (gb, r4) <- groupby_opt r3;
+      do (trs, r5) <- triggers_opt r4;
+      do (ob, r6) <- orderby_opt r5;
+      do (lim, r7) <- limit_opt r6;
       Ok (Select d items from w gb trs ob lim, r7)
   | _ => Err E_syntax
   end.
@@ -755,3 +770,15 @@ Definition c30_tie_parse (c : c30_case) : bool :=
 (* round trip through the model parser of what the implementation printed (oracle on the implementation's output) *)
 Definition c30_spec (c : c30_case) : bool :=
   let '(_, a, printed) := c in match parse printed with Ok a' => select_eqb a' a | _ => false end.
+
+(* one pinned template at a time (for the five refutation witnesses) *)
+Definition templates_pinned_select := {| t_Select := tpl_Select_pinned; t_TableValuedFunction := tpl_TableValuedFunction;
+  t_JoinTableExpr := tpl_JoinTableExpr; t_EndOfStreamTrigger := tpl_EndOfStreamTrigger; t_DelayTrigger := tpl_DelayTrigger |}.
+Definition templates_pinned_tvf := {| t_Select := tpl_Select; t_TableValuedFunction := tpl_TableValuedFunction_pinned;
+  t_JoinTableExpr := tpl_JoinTableExpr; t_EndOfStreamTrigger := tpl_EndOfStreamTrigger; t_DelayTrigger := tpl_DelayTrigger |}.
+Definition templates_pinned_join := {| t_Select := tpl_Select; t_TableValuedFunction := tpl_TableValuedFunction;
+  t_JoinTableExpr := tpl_JoinTableExpr_pinned; t_EndOfStreamTrigger := tpl_EndOfStreamTrigger; t_DelayTrigger := tpl_DelayTrigger |}.
+Definition templates_pinned_eos := {| t_Select := tpl_Select; t_TableValuedFunction := tpl_TableValuedFunction;
+  t_JoinTableExpr := tpl_JoinTableExpr; t_EndOfStreamTrigger := tpl_EndOfStreamTrigger_pinned; t_DelayTrigger := tpl_DelayTrigger |}.
+Definition templates_pinned_delay := {| t_Select := tpl_Select; t_TableValuedFunction := tpl_TableValuedFunction;
+  t_JoinTableExpr := tpl_JoinTableExpr; t_EndOfStreamTrigger := tpl_EndOfStreamTrigger; t_DelayTrigger := tpl_DelayTrigger_pinned |}.
